@@ -151,7 +151,9 @@ pub fn any<'text, 'a, Sc>(tokens: &'a [Sc::Token])
                 event!(Level::TRACE, "UnexpectedTokenError ({:?})", lex);
                 Err(Box::new(UnexpectedTokenError {
                     error_span,
-                    token_span: lexer.token_span(),
+                    // The found token was only looked at, not consumed.
+                    token_span: lexer.peek_token_span()
+                        .unwrap_or_else(|| lexer.token_span()),
                     expected: Expected::any(tokens.iter().cloned()),
                     found: Found::Token(lex),
                 }))
@@ -206,7 +208,9 @@ pub fn any_index<'text, 'a, Sc>(tokens: &'a [Sc::Token])
                 event!(Level::TRACE, "UnexpectedTokenError ({:?})", lex);
                 Err(Box::new(UnexpectedTokenError {
                     error_span,
-                    token_span: lexer.token_span(),
+                    // The found token was only looked at, not consumed.
+                    token_span: lexer.peek_token_span()
+                        .unwrap_or_else(|| lexer.token_span()),
                     expected: Expected::any(tokens.iter().cloned()),
                     found: Found::Token(lex),
                 }))
@@ -483,7 +487,9 @@ pub fn end_of_text<'text, Sc>(
             event!(Level::ERROR, "end_of_text: UnexpectedTokenError {}", lexer);
             Err(Box::new(UnexpectedTokenError {
                 error_span,
-                token_span: lexer.token_span(),
+                // The found token was only looked at, not consumed.
+                token_span: lexer.peek_token_span()
+                    .unwrap_or_else(|| lexer.token_span()),
                 expected: Expected::EndOfText,
                 found: Found::Token(lex),
             }))
